@@ -425,6 +425,8 @@ class NetworkGraph(AbstractBaseIR):
             buffer_eqs = [
                 f"index_axis({buf}) = roll({buf}, 1, 1)",
                 f"index_axis({buf}, 0, 1) = {var}",
+                # one source unit: the source variable is a scalar at runtime, so is its delayed value
+                f"{buf_out} = index_2d({buf}, 0, {d_steps})" if Ns == 1 else
                 f"{buf_out} = index_axis({buf}, {d_steps}, 1)",
             ]
         else:
